@@ -52,7 +52,7 @@ def run(rep, tier):
             for node in ast.walk(fn):
                 if isinstance(node, ast.Attribute) and node.attr == 'position_info' \
                         and isinstance(node.ctx, (ast.Store, ast.Del)) and fname != '_finalize_parse_info' \
-                        and not fname.startswith(('_try_', '_parse_function_')):
+                        and not fname.startswith(('_try_', routes.helper_prefix())):
                     rep.add(Finding('SPAN-writers', f'{rel}:{fname}', '', f'{what}: {fname} writes position_info',
                                     f'{rel}:{fname}'))
     rep.floor('runtime copies analysed', rep.instances.get('runtime copies analysed', 0), 3)
